@@ -8,7 +8,9 @@
      chunk shapes, no CR) -- both halves of the property, no per-output boolean.  C07_fixed_point_shipped instantiates C01.
    * C07_fresh_of_template: the same for ANY template of the block grammar with the computed conditions in_grammar07, given
      distinct cleaned tag names (keys07), C07_names_wf16: admissible names discharge the per-instance conditions of C16.
-   * C07_tags_consumed_shipped: the generator-tag half for the three shipped files inside the block grammar
+   * C07_wf_out_Test_TEMPLATEStateMachine_cs / C07_fixed_point_shipped_cs: the same for the shipped Test.TEMPLATEStateMachine.cs (one more syntactic
+     name condition: no guard named like a state hook; the user-tag line's output judged per assignment).
+   * C07_tags_consumed_shipped(_user): the generator-tag half for every shipped file inside the block grammar (C07_shipped_files_in_grammar)
      (TEMPLATEReceiver.h and TEMPLATETransmitter.h carry no USER tag; their lines contain '{' next to name tags, which the
      simple "no brace on a line with a name tag" criterion of in_grammar07 does not admit: wf_fresh_file is not proved for them).
    Fixed first-filter dictionary dict0 (project name X, namespace NS): not generalised to all project names.
@@ -23,7 +25,7 @@ From Coq Require Import String Ascii List Bool.
 From KV Require Import Lib.Str Lib.ODict Model.PreserveCore Model.Preserve Model.TagShape
                        Gen.Tags Gen.Templates Gen.Vocab Proofs.PreserveStr Proofs.TagShapeProofs
                        Model.Engine Model.EngineSM Model.EngineDomain Model.EngineDomain16 Model.Parse16 Spec.RefExpand Spec.RefExpand16
-                       Model.EngineDomain07 Proofs.Shipped16 Proofs.Shipped07 Proofs.Shipped07Cpp Proofs.PreserveTop.
+                       Model.EngineDomain07 Proofs.Shipped16 Proofs.Shipped07 Proofs.Shipped07Cpp Proofs.Shipped07Cs Proofs.PreserveTop.
 Import ListNotations.
 Open Scope string_scope.
 
@@ -96,6 +98,28 @@ Theorem C07_tags_consumed_shipped : forall lines l0 t m (a : usertags),
 Proof. exact shipped_output_flat. Qed.
 Print Assumptions C07_tags_consumed_shipped.
 
+(* ... and for the shipped files WITH lines that carry user tags outside blocks (TEMPLATEInternals.cs, Test.TEMPLATEStateMachine.cs): for every
+   model and every assignment a of user tags admitted for the file, if every such line is closed under a (each of its tags has a value in a or a
+   default: user_lines_closed, computed), the pipeline writes the reference expansion under a and no line of it contains a generator tag.
+   (The two protocol files TEMPLATEReceiver.cpp / TEMPLATETransmitter.cpp have no such lines: they are instances of the theorem above.) *)
+Theorem C07_tags_consumed_shipped_user : forall lines l0 t m (a : usertags),
+  shipped16 dict0 lines = Some (l0, t) ->
+  wf_elements16 t (with_user a (elements_of_model m)) = true -> user_lines_closed a t = true ->
+  generate_file m dict0 a lines = Some (ref16 (with_user a (elements_of_model m)) t)
+  /\ forallb no_generator_tag (flat_map (ref_item16 (with_user a (elements_of_model m))) t) = true.
+Proof. exact shipped_consumed_user_flat. Qed.
+Print Assumptions C07_tags_consumed_shipped_user.
+
+(* the files this covers now (each reads back into the grammar under dict0): computed *)
+Example C07_shipped_files_in_grammar :
+  map (fun nl => match shipped16 dict0 (snd nl) with Some _ => true | None => false end)
+      (filter (fun nl => existsb (String.eqb (fst nl)) ["Test.TEMPLATEStateMachine.cpp"; "TEMPLATEInternals.cs"; "Test.TEMPLATEStateMachine.cs";
+                                                        "TEMPLATEReceiver.h"; "TEMPLATETransmitter.h"; "TEMPLATEReceiver.cpp"; "TEMPLATETransmitter.cpp"])
+              (Gen.Templates.tmpl_cpp ++ Gen.Templates.tmpl_cs ++ Gen.Templates.tmpl_proto))
+  = [true; true; true; true; true; true; true].
+Proof. vm_compute. reflexivity. Qed.
+Print Assumptions C07_shipped_files_in_grammar.
+
 Definition cd_rows : list EngineSM.row :=
   [["StateStop"; "EventOpen"; "StateOpen"; "OnOpenDrive"; "None"]; ["StateStop"; "EventPlay"; "StatePlay"; "OnPlayTrack"; "GuardCDInside"];
    ["StateOpen"; "EventOpen"; "StateStop"; "OnCloseDrive"; "None"]; ["StatePlay"; "EventPlay"; "StatePause"; "OnPause"; "None"];
@@ -118,17 +142,18 @@ Print Assumptions C07_tags_consumed_shipped_nonvacuous.
 
 (* ---------------------------------------------------------------- both halves, for all models *)
 (* any template of the block grammar that meets the computed conditions in_grammar07 (tag lines in identical adjacent pairs,
-   literal pieces of lines with name tags free of brace / TAB / CR / LF / backslash as required, ...): for every element
+   literal pieces of lines with name tags free of brace / TAB / CR / LF / backslash as required, ...; lines with user tags outside blocks
+   are admitted, their output under the assignment of the element record is judged by user_lines_plain): for every element
    lists with admissible names and pairwise distinct cleaned tag names, the expanded lines are a well-formed fresh file *)
 Theorem C07_fresh_of_template : forall e t,
-  names_fine e -> in_grammar07 t = true -> forallb item16_ok t = true -> NoDup (keys07 e t) ->
+  names_fine e -> in_grammar07 t = true -> user_lines_plain e t = true -> forallb item16_ok t = true -> NoDup (keys07 e t) ->
   wf_fresh_file (flat_map (ref_item16 e) t) = true.
 Proof. exact fresh_of_template. Qed.
 Print Assumptions C07_fresh_of_template.
 
 (* admissible names make the per-(template, table) conditions of C16 (wf_elements16) true *)
 Theorem C07_names_wf16 : forall e t,
-  names_fine e -> forallb item16_ok t = true -> inky t = true -> wf_elements16 t e = true.
+  names_fine e -> forallb item16_ok t = true -> inky t = true -> user_lines_plain e t = true -> wf_elements16 t e = true.
 Proof. exact names_wf16. Qed.
 Print Assumptions C07_names_wf16.
 
@@ -151,6 +176,40 @@ Theorem C07_fixed_point_shipped : forall e path (u : string -> list string),
   regen_file path (fresh_cpp e) (on_disk u (items_of (fresh_cpp e))) = (on_disk u (items_of (fresh_cpp e)), []).
 Proof. exact fixed_point_cpp. Qed.
 Print Assumptions C07_fixed_point_shipped.
+
+(* The same for the shipped Test.TEMPLATEStateMachine.cs (a whole file of the grammar since it admits lines with user tags outside blocks:
+   #define VERBOSE_<<<Verbose=1>>>).  Its USER tags are USING_DECLARATIONS, CONSTRUCTOR, one per guard, one per (action, event), On<State>Entry /
+   On<State>Exit per state, MEMBERS, UNIT_TEST_STATES, TESTS, TEST_SUITE_TESTS.  names_ok_cs = names_ok for this file AND no guard is named like
+   a state hook (On<State>Entry / On<State>Exit: such a guard's tag would coincide with the hook's -- syntactic, computed).  For every model and
+   EVERY assignment a of user tags under which the user line's output is a plain line (user_lines_plain, computed): the cleaned tag names are
+   pairwise distinct, what smgen.Generate writes is createoutput of a well-formed fresh file, and regeneration over any user edits is a fixed
+   point. *)
+Theorem C07_keys_unique_Test_TEMPLATEStateMachine_cs : forall e, names_ok_cs e = true -> NoDup (keys07 e t_cs).
+Proof. exact nodup_keys_cs. Qed.
+Print Assumptions C07_keys_unique_Test_TEMPLATEStateMachine_cs.
+
+Theorem C07_wf_out_Test_TEMPLATEStateMachine_cs : forall m (a : usertags),
+  names_ok_cs (with_user a (elements_of_model m)) = true -> user_lines_plain (with_user a (elements_of_model m)) t_cs = true ->
+  generate_file m dict0 a lines_cs = Some (concat_lines (map tab4 (fresh_cs (with_user a (elements_of_model m)))))
+  /\ wf_fresh_file (fresh_cs (with_user a (elements_of_model m))) = true.
+Proof. exact shipped_cs_wf_out. Qed.
+Print Assumptions C07_wf_out_Test_TEMPLATEStateMachine_cs.
+
+Theorem C07_fixed_point_shipped_cs : forall e path (u : string -> list string),
+  names_ok_cs e = true -> user_lines_plain e t_cs = true -> (forall k, block_ok (u k) = true) ->
+  regen_file path (fresh_cs e) (on_disk u (items_of (fresh_cs e))) = (on_disk u (items_of (fresh_cs e)), []).
+Proof. exact fixed_point_cs. Qed.
+Print Assumptions C07_fixed_point_shipped_cs.
+
+Example C07_wf_out_cs_nonvacuous :
+  shipped16 dict0 lines_cs = Some (l0_cs, t_cs)
+  /\ match tt_model cd_rows [] ["MessageHeader"] [] with
+     | Some m => names_ok_cs (with_user [("Verbose", "0")] (elements_of_model m)) && user_lines_plain (with_user [("Verbose", "0")] (elements_of_model m)) t_cs
+                 && Nat.ltb 10 (List.length (keys07 (elements_of_model m) t_cs))
+     | None => false
+     end = true.
+Proof. split; vm_compute; reflexivity. Qed.
+Print Assumptions C07_wf_out_cs_nonvacuous.
 
 Example C07_wf_out_nonvacuous :
   shipped16 dict0 lines_cpp = Some (l0_cpp, t_cpp)
